@@ -234,7 +234,7 @@ ScriptStep ==
 
 \* delete-files over bundles of more than one index file: two bundles of one repository and one of a
 \* prefix-named neighbour hold the same tree (plus the bulk filler, Bulks = {1001}: two index files);
-\* every non-empty subset ("delfiles-all") or two chosen subsets ("delfiles") of its paths is deleted
+\* every non-empty subset ("delfiles-all") or two chosen subsets ("delfiles") of its paths is deleted, then r1 is renamed
 DelTree == [p \in {[p |-> "a", gen |-> FALSE], [p |-> "d/a", gen |-> FALSE], [p |-> "sp ace", gen |-> FALSE]} |-> "s"]
 DelSets == IF Script = "delfiles-all" THEN SUBSET (DOMAIN DelTree) \ {{}}
            ELSE {{[p |-> "d/a", gen |-> FALSE]}, {[p |-> "a", gen |-> FALSE], [p |-> "sp ace", gen |-> FALSE]}}
@@ -243,7 +243,9 @@ DelScriptStep ==
     [] pos = 1 -> GCreateRepo("r1-x") /\ pos' = 2
     [] pos \in 2..3 -> (\E k \in Bulks : GUpload("r1", DelTree, k)) /\ pos' = pos + 1
     [] pos = 4 -> (\E k \in Bulks : GUpload("r1-x", DelTree, k)) /\ pos' = 5
-    [] pos = 5 -> (\E ps \in DelSets : GDeleteEntries("r1", ps)) /\ pos' = 9
+    [] pos = 5 -> (\E ps \in DelSets : GDeleteEntries("r1", ps)) /\ pos' = 6
+    \* ... and the repository, whose bundles still have two index files each, is renamed next to its neighbour
+    [] pos = 6 -> GRenameRepo("r1", "r10") /\ pos' = 9
     [] OTHER -> FALSE
 
 \* uploads whose number of files is an exact multiple of the index-file size E (the last index file is full):
